@@ -389,6 +389,8 @@ type c02Tag struct {
 	ref       time.Time // the reference time def's time conditions are currently expressed against
 	matches   []uint    // bits of TagDetails.Matches
 	uncertain []uint    // bits of TagDetails.Uncertain
+	nPos      int       // conjuncts of the definition
+	nNeg      int       // conjuncts of the negated definition
 }
 
 func c02Bitmask(bits []uint) bitmask.LongBitmask {
@@ -429,17 +431,21 @@ func c02TagCfg(open map[string]bool) vq.GenConfig {
 // c02DrawExpr draws an expression whose estimated normal form stays small.
 // Protocol filters make every clean() of a conjunct walk all 65536 flag values,
 // so expressions holding one are kept smaller still (cost only).
-func c02DrawExpr(t *rapid.T, cfg vq.GenConfig, maxDNF int, label string) *vq.Node {
+func c02DrawExpr(t *rapid.T, cfg vq.GenConfig, maxDNF int, label string, accept func(e *vq.Node, hasProto bool) bool) *vq.Node {
 	for try := 0; try < 6; try++ {
 		e := vq.GenExpr(cfg).Draw(t, label)
 		sz, _ := e.DNFSize()
 		lim := maxDNF
+		proto := false
 		for _, a := range e.Atoms() {
-			if a.Key == "protocol" && lim > 6 {
-				lim = 6
+			if a.Key == "protocol" {
+				proto = true
+				if lim > 6 {
+					lim = 6
+				}
 			}
 		}
-		if sz <= lim {
+		if sz <= lim && (accept == nil || accept(e, proto)) {
 			return e
 		}
 	}
@@ -454,7 +460,13 @@ func c02GenTags(t *rapid.T, open map[string]bool) (tags []*c02Tag, excluded int)
 	cfg := c02TagCfg(open)
 	for _, name := range names {
 		tg := &c02Tag{name: name}
-		tg.defText = c02DrawExpr(t, cfg, 6, "tagdef").Render()
+		// the engine inlines the definition (or its negation) into every conjunct that
+		// filters on the tag: both normal forms are kept small (cost only)
+		e := c02DrawExpr(t, cfg, 6, "tagdef", func(e *vq.Node, _ bool) bool {
+			q, err := query.Parse("-(" + e.Render() + ")")
+			return err == nil && len(q.Conditions) <= 6
+		})
+		tg.defText = e.Render()
 		if err := tg.parse(); err != nil {
 			t.Fatalf("tag definition %q does not parse: %v", tg.defText, err)
 		}
@@ -476,12 +488,47 @@ func c02GenTags(t *rapid.T, open map[string]bool) (tags []*c02Tag, excluded int)
 	return tags, excluded
 }
 
+// c02InlinedSize estimates how many conjuncts the engine's inlining of
+// undecided tags turns the normal form into.
+func c02InlinedSize(conds query.ConditionsSet, tags []*c02Tag) int {
+	const uncertain = query.TagConditionAcceptUncertainFailing | query.TagConditionAcceptUncertainMatching
+	total := 0
+	for _, conj := range conds {
+		n := 1
+		for _, cc := range conj {
+			tc, ok := cc.(*query.TagCondition)
+			if !ok || tc.Accept&uncertain == 0 || tc.Accept&uncertain == uncertain {
+				continue
+			}
+			for _, tg := range tags {
+				if tg.name != tc.TagName || len(tg.uncertain) == 0 {
+					continue
+				}
+				if tc.Accept&uncertain == query.TagConditionAcceptUncertainMatching {
+					n *= 1 + tg.nPos
+				} else {
+					n *= 1 + tg.nNeg
+				}
+			}
+			if n > 1<<20 {
+				n = 1 << 20
+			}
+		}
+		total += n
+	}
+	return total
+}
+
 func (tg *c02Tag) parse() error {
 	q, err := query.Parse(tg.defText)
 	if err != nil {
 		return err
 	}
 	tg.def, tg.ref = q, q.ReferenceTime
+	tg.nPos, tg.nNeg = len(q.Conditions), 1
+	if nq, err := query.Parse("-(" + tg.defText + ")"); err == nil {
+		tg.nNeg = len(nq.Conditions)
+	}
 	return nil
 }
 
@@ -563,9 +610,23 @@ func (sp *c02Search) render() map[string]any {
 	return m
 }
 
-func c02GenSearch(t *rapid.T, cfg vq.GenConfig) *c02Search {
+func c02GenSearch(t *rapid.T, cfg vq.GenConfig, tags []*c02Tag) *c02Search {
 	sp := &c02Search{}
-	sp.expr = c02DrawExpr(t, cfg, 40, "expr")
+	sp.expr = c02DrawExpr(t, cfg, 40, "expr", func(e *vq.Node, hasProto bool) bool {
+		if len(tags) == 0 {
+			return true
+		}
+		// bound the size of the normal form after the engine inlined undecided tags (cost only)
+		q, err := query.Parse(e.Render())
+		if err != nil {
+			return true // reported by the property
+		}
+		lim := 100
+		if hasProto {
+			lim = 12
+		}
+		return c02InlinedSize(q.Conditions, tags) <= lim
+	})
 	n := rapid.SampledFrom([]int{0, 0, 1, 1, 1, 2, 2, 2, 3, 3}).Draw(t, "nsort")
 	for i := 0; i < n; i++ {
 		sp.sorting = append(sp.sorting, c02SortSpec{Key: rapid.SampledFrom(c02SortKeys).Draw(t, "sortkey"), Desc: rapid.Bool().Draw(t, "desc")})
@@ -1100,7 +1161,7 @@ func c02Prop(rt *rapid.T, c *vlib.Case, open map[string]bool) {
 		tagNames[i] = tg.name
 	}
 	cfg := c02ExprCfg(open, tagNames)
-	searches := rapid.SliceOfN(rapid.Custom(func(t *rapid.T) *c02Search { return c02GenSearch(t, cfg) }), 1, 12).Draw(rt, "searches")
+	searches := rapid.SliceOfN(rapid.Custom(func(t *rapid.T) *c02Search { return c02GenSearch(t, cfg, tags) }), 1, 12).Draw(rt, "searches")
 
 	render := func(extra map[string]any) any {
 		m := c02RenderWorld(pop, tags)
